@@ -472,12 +472,24 @@ def exception_sites(repo):
             L = open(os.path.join(repo, f)).read().split("\n")
         except OSError:
             continue
+        # raise helpers: `static void vm_raise(vm * machine, int exception) { machine->running = VM_EXCEPTION; machine->exception =
+        # exception; }` - a brace-free body that stores one of its parameters into ->exception.  Their CALLS are the raise points.
+        helpers, inside = set(), set()
+        for hm in re.finditer(r"^(?:static\s+)?(?:inline\s+)?void\s+(\w+)\s*\(([^)]*)\)\s*\{([^{}]*)\}", "\n".join(L), re.M):
+            am = re.search(r"->exception\s*=\s*(\w+)\s*;", hm.group(3))
+            if re.search(r"running\s*=\s*VM_EXCEPTION", hm.group(3)) and am and re.search(r"\b%s\s*(,|$)" % re.escape(am.group(1)), hm.group(2).strip()):
+                helpers.add(hm.group(1))
+                first = "\n".join(L)[:hm.start()].count("\n")
+                inside.update(range(first, first + hm.group(0).count("\n") + 1))
+        call = re.compile(r"\b(?:%s)\s*\(" % "|".join(sorted(helpers))) if helpers else None
         cur, start = None, 0
         for i, l in enumerate(L):
             m = re.match(r"^(?:static\s+)?(?:void|int|mem_ptr|char)\s*\*?\s*(\w+)\s*\(", l) or re.match(r"^#define\s+(\w+)", l)
             if m:
                 cur, start = m.group(1), i
-            if cur and re.search(r"running\s*=\s*VM_(EXCEPTION|ERROR)", l):
+            if i in inside:
+                continue
+            if cur and (re.search(r"running\s*=\s*VM_(EXCEPTION|ERROR)", l) or (call and call.search(l))):
                 body = "\n".join(L[start:i])
                 holds = bool(re.search(r"_new\s*\(|malloc\s*\(|calloc\s*\(|strdup|string_\w+\s*\(", body))
                 e = res.setdefault(cur, {"file": f, "raise_points": 0, "allocates_before_a_raise": False})
@@ -599,9 +611,11 @@ def owned_token_kinds(repo):
         return out
     rule = None
     for i, l in enumerate(L):
-        if l and not l[0].isspace() and l.rstrip().endswith("{") and not l.startswith("}"):
-            rule = l.rstrip()[:-1].strip()
-        if re.search(r"str_value\s*=\s*(strdup|string_take)\s*\(", l) and rule:
+        head = re.sub(r"\s*/\*.*?\*/\s*$", "", l.rstrip())          # `{ID}    { /* comment */`
+        if head and not head[0].isspace() and head.endswith("{") and not head.startswith("}"):
+            rule = head[:-1].strip()
+        # the assignment may be broken after or before the `=`
+        if "str_value" in l and re.search(r"str_value\s*=\s*(strdup|string_take)\s*\(", l + " " + (L[i + 1] if i + 1 < len(L) else "")) and rule:
             if not out or out[-1][0] != rule:
                 out.append([rule, i + 1])
     return out
@@ -619,11 +633,13 @@ def measure_gc_delete_bounds(repo):
         return None
     e = src.find("\n}\n", b.start())
     src = src[b.start():e if e > 0 else len(src)]
-    m = re.search(r"void\s+gc_delete\s*\(.*?for\s*\(\s*i\s*=\s*(\d+)\s*;\s*i\s*(<=?)\s*collector->mem_size\s*(?:-\s*(\d+))?\s*;", src, re.S)
+    # the index may have any name: the same identifier in all three clauses, advancing by one
+    m = re.search(r"void\s+gc_delete\s*\(.*?for\s*\(\s*(\w+)\s*=\s*(\d+)\s*;\s*\1\s*(<=?)\s*collector->mem_size\s*(?:-\s*(\d+))?\s*;"
+                  r"\s*(?:\1\s*\+\+|\+\+\s*\1|\1\s*\+=\s*1)\s*\)", src, re.S)
     if not m:
         return None
-    cut = int(m.group(3) or 0) - (1 if m.group(2) == "<=" else 0)
-    return {"lo": int(m.group(1)), "cut": cut, "loop": " ".join(m.group(0)[m.group(0).rfind("for"):].split())}
+    cut = int(m.group(4) or 0) - (1 if m.group(3) == "<=" else 0)
+    return {"lo": int(m.group(2)), "cut": cut, "loop": " ".join(m.group(0)[m.group(0).rfind("for"):].split())}
 
 
 def heap_case(name, src, size, phase):
